@@ -478,6 +478,91 @@ type nearMissCfg struct {
 	maxPos   int // positions of a text that get single replacements
 	perField int // other names per record field
 	ix       *recordIndex
+	keyRe    *regexp.Regexp // the published pattern of a key (cbc/key), nil when not readable
+	perKey   int            // members of a key enumeration that get composed beside the present one
+	siblings []string       // the constants of the other key enumerations of the same published file
+}
+
+// ---- enumerations of KEYS ----------------------------------------------------------------------
+//
+// A key (cbc/key) is not an opaque text: it is a sequence of sub-keys joined with `+` (the library
+// composes and decomposes them: Key.With, Key.Has, Key.HasPrefix, Key.Pop), each possibly made of
+// words joined with `-`.  Where the published leaf enumerates keys as CONSTANTS, a consumer
+// accepts the listed compositions and nothing else; the Go side must therefore refuse every
+// other composition of the same material although it is a well-formed key and although a rule
+// that compares by sub-key, by prefix or by containment takes it for a member.  For an
+// enumeration all of whose constants are keys (they match the published pattern of cbc/key),
+// the candidates are, computed from the enumeration alone:
+//   - every (sampled) member extended by `+<sub>` and by `-<sub>`, and prefixed by `<sub>+`,
+//     where sub is another member, a member of a sibling enumeration, and a fresh key;
+//   - every member cut at each `+` and `-` (both sides of the cut);
+//   - every member of the sibling key enumerations of the same published file (the type of an
+//     order where the type of an invoice is expected).
+func keyCompositions(r *rand.Rand, sh leafShape, cur string, cfg nearMissCfg) (out []cand) {
+	if cfg.keyRe == nil || len(sh.consts) == 0 {
+		return nil
+	}
+	own := map[string]bool{}
+	for _, c := range sh.consts {
+		if !cfg.keyRe.MatchString(c) {
+			return nil // not an enumeration of keys
+		}
+		own[c] = true
+	}
+	// the members composed: the present one and perKey others from a random start
+	var ms []string
+	if own[cur] {
+		ms = append(ms, cur)
+	}
+	n := cfg.perKey
+	if n > len(sh.consts) {
+		n = len(sh.consts)
+	}
+	start := r.Intn(len(sh.consts))
+	for j := 0; j < n; j++ {
+		if m := sh.consts[(start+j*len(sh.consts)/n)%len(sh.consts)]; m != cur {
+			ms = append(ms, m)
+		}
+	}
+	fresh := func() string {
+		for {
+			b := make([]byte, 3+r.Intn(4))
+			for i := range b {
+				b[i] = byte('a' + r.Intn(26))
+			}
+			if !own[string(b)] {
+				return string(b)
+			}
+		}
+	}
+	for _, m := range ms {
+		subs := []struct{ label, v string }{{"fresh-key", fresh()}}
+		if len(sh.consts) > 1 {
+			o := sh.consts[r.Intn(len(sh.consts))]
+			for o == m {
+				o = sh.consts[r.Intn(len(sh.consts))]
+			}
+			subs = append(subs, struct{ label, v string }{"another-member", o})
+		}
+		if len(cfg.siblings) > 0 {
+			subs = append(subs, struct{ label, v string }{"sibling-member", cfg.siblings[r.Intn(len(cfg.siblings))]})
+		}
+		for _, s := range subs {
+			out = append(out,
+				cand{"key-member-extended-with-sub-key:" + s.label, m + "+" + s.v},
+				cand{"key-member-extended-with-word:" + s.label, m + "-" + s.v},
+				cand{"key-member-as-sub-key-of:" + s.label, s.v + "+" + m})
+		}
+		for i, ch := range m {
+			if ch == '+' || ch == '-' {
+				out = append(out, cand{"key-member-cut-at-separator:head", m[:i]}, cand{"key-member-cut-at-separator:tail", m[i+1:]})
+			}
+		}
+	}
+	for _, s := range cfg.siblings {
+		out = append(out, cand{"key-of-sibling-enumeration", s})
+	}
+	return out
 }
 
 // sampleMember draws a member of a pattern (sampleMatch knows the shapes of the published
@@ -523,6 +608,7 @@ func nearMisses(r *rand.Rand, sh leafShape, cur string, cfg nearMissCfg) (out []
 		}
 		add(memberVariants(m))
 		add(unicodeNearMisses(r, m, 1, 2))
+		add(keyCompositions(r, sh, cur, cfg))
 	}
 	pats, srcs := sh.alts, sh.altSrc
 	if len(sh.consts)+len(sh.alts) == 0 {
